@@ -214,3 +214,70 @@ func c16RunProviders(c *fw.Ctx) {
 		}
 	}
 }
+
+// C16 provider-auth/group-cache/* — the coalescing wrapper over the REAL GroupCache (the authenticator's
+// Okta wiring: wrapper -> group cache -> provider) over a scripted directory, with the virtual clock moved
+// on between the request that fills the cache and the two identical questions that follow: whatever the
+// cache does with an entry of that age, the directory is never working on two identical questions at once.
+func c16RunGroupCache(c *fw.Ctx) {
+	const ttl = 10 * time.Minute
+	ages := []time.Duration{0, ttl / 4, 3 * ttl / 4, ttl + time.Minute}
+	for _, age := range ages {
+		age := age
+		name := fmt.Sprintf("provider-auth/group-cache/same-question-twice-entry-aged-%s", age)
+		drive(c, name, 2, func(x *explore.Exec, owned bool) {
+			var d *directory
+			answers := map[string][]string{}
+			s := sched.Run(x, func(s *sched.Sched) { s.TimerBudget = 0 }, func(s *sched.Sched) {
+				d = &directory{s: s, x: x, members: map[string][]string{"a": {"u1"}, "b": {"u2"}}, reported: map[string]map[bool]bool{}}
+				p := authp.NewSingleFlightProvider(authp.NewGroupCache(innerGroups{d: d}, ttl, nil, nil))
+				p.ValidateGroupMembership("u1", []string{"a", "b"}, "tok") // fills the cache now
+				s.Clock += int64(age)
+				for _, t := range []string{"first", "second"} {
+					t := t
+					s.Go(t, func() {
+						g, err := p.ValidateGroupMembership("u1", []string{"a", "b"}, "tok")
+						answers[t] = append(g, fmt.Sprint(err != nil))
+					})
+				}
+			})
+			if he, ok := s.Panic.(explore.HarnessError); ok {
+				panic(he)
+			}
+			if !owned {
+				return
+			}
+			c.Res.Transitions += int64(s.Steps)
+			c.Res.Validated++
+			c.Res.Outcome(fmt.Sprintf("%s|checks=%d|%v|%v", name, len(d.checks), answers["first"], answers["second"]))
+			viol := func(key, what string) {
+				c.Res.Violate(fw.Violation{Property: "C16", Key: "C16/provider-auth/group-cache/" + key, What: what, Scenario: name, Choices: x.Choices(),
+					Detail: map[string]interface{}{"threads_and_schedule": s.Describe(), "directory_checks": len(d.checks), "answers": answers}})
+			}
+			switch {
+			case s.Panic != nil:
+				viol("panic", fmt.Sprintf("panic: %v", s.Panic))
+				return
+			case s.Deadlock:
+				viol("deadlock", fmt.Sprintf("deadlock: %v never return", s.Blocked))
+				return
+			}
+			for i, a := range d.checks {
+				for _, b := range d.checks[i+1:] {
+					endA, endB := a.End, b.End
+					if endA == 0 {
+						endA = 1 << 30
+					}
+					if endB == 0 {
+						endB = 1 << 30
+					}
+					if a.User == b.User && strings.Join(sortedCopy(a.Groups), ",") == strings.Join(sortedCopy(b.Groups), ",") && a.Start < endB && b.Start < endA {
+						viol("identical-questions-in-flight", fmt.Sprintf("the directory was working on the question (%s, %v) twice at the same moment (the cached answer was %s old)", a.User, a.Groups, age))
+						return
+					}
+				}
+			}
+			c.Res.Count("positive_group_cache_pairs_without_overlap", 1)
+		})
+	}
+}
